@@ -36,18 +36,23 @@ impl DecOpts {
 
 pub fn lib_decode(bytes: &[u8], o: &DecOpts) -> Result<(StunMessage, usize), String> {
     let dec = if o.with_ctx {
+        // the builder's setters are called in an order that depends on the input (rotation and direction by its length):
+        // the resulting context must not depend on it
         let mut b = DecoderContextBuilder::default();
-        if let Some(k) = &o.key {
-            b = b.with_key(k.clone());
-        }
-        if o.validation {
-            b = b.with_validation();
-        }
-        if o.unknown_data {
-            b = b.with_unknown_data();
-        }
-        if o.not_ignore {
-            b = b.not_ignore();
+        let rot = bytes.len() % 4;
+        let rev = (bytes.len() / 4) % 2 == 1;
+        for i in 0..4usize {
+            let j = if rev { 3 - (i + rot) % 4 } else { (i + rot) % 4 };
+            b = match j {
+                0 => match &o.key {
+                    Some(k) => b.with_key(k.clone()),
+                    None => b,
+                },
+                1 if o.validation => b.with_validation(),
+                2 if o.unknown_data => b.with_unknown_data(),
+                3 if o.not_ignore => b.not_ignore(),
+                _ => b,
+            };
         }
         MessageDecoderBuilder::default().with_context(b.build()).build()
     } else {
